@@ -156,6 +156,8 @@ static void attribute(const Desc& d, const Facts& f, const Plan& plan, const Wor
         }
         if (same_pos && O->obs != E->obs) {
             o.level = "C"; add(P, "C19"); add(P, "C17"); add(P, "C03");
+            // the configuration that was activated differs (the ids of the regions are set before the entries run)
+            if (O->kind == K_N || O->kind == K_X) { add(P, "C02"); if (f.history) add(P, "C08"); if (f.pseudo) add(P, "C09"); if (f.nested) add(P, "C07"); }
             o.detail = "active state ids observed inside the behaviour differ"; add_context(); return;
         }
         if (sel) {
